@@ -193,6 +193,20 @@ def run(ctx, model_ok=True, proofs_broken=False):
                     found.setdefault(r[0], []).append({"line": line, "target": repr(target), "impl": got, "what": r[1]})
                 if "host=~" not in got:
                     nontrivial += 1
+            elif t[1] == "hostport":
+                # "no invented bytes" for the authority splitter (CONNECT targets, Host fields): outside the shapes that are rejected as a
+                # whole (white space, an unterminated bracket, junk behind the closing bracket) host [":" port] re-joins to the input (up to the case of the host)
+                src = unhx(t[2])
+                if not any(c in src for c in b" \t\r\n\x0b\x0c"):
+                    j = src.find(b"]")
+                    if not (src.startswith(b"[") and (j < 0 or (j + 1 < len(src) and src[j + 1:j + 2] != b":"))):
+                        kv = parse_kv(got)
+                        host = None if kv["host"] == "~" else unhx(kv["host"])
+                        port = None if kv["port"] == "~" else unhx(kv["port"])
+                        rj = (host or b"") + ((b":" + port) if port is not None else b"")
+                        if rj.lower() != src.lower():      # the host part is lower-cased (documented)
+                            found.setdefault("hostport-rejoin", []).append({"line": line, "target": repr(src), "impl": got,
+                                                                            "what": "host [':' port] re-joins to %r, the input is %r" % (rj, src)})
             elif t[1] == "norm_uri":
                 target = unhx(t[3])
                 kv = parse_kv(got)
